@@ -107,16 +107,18 @@ WriteWord(ww) ==
                       \o AAttr(bCLASS, <<gOCRXWORD>>)
                       \o AAttr(bTITLE, HNum2(ww.first, ww.last, hWBBOX) \o <<gXFONT>> \o HocrFont(ww.first) \o <<gXFSIZE>> \o HNum(ww.first, hWSIZE)))
        \o HocrText(Strip(ww.text)) \o EndTag(hSPAN)
+\* what write_word compares: baseline, font name, size - here the size class and the glyph's parent (its line)
+WordKey(j) == T[j].a + 2 * Parent(T, j)
 \* one glyph j arriving at the word collector:  <<output, new word state>>
 HocrChar(j) ==
   LET s == T[j].s IN
-  IF ~w.on THEN <<(<<>>), [on |-> TRUE, text |-> s, first |-> j, last |-> j, sz |-> T[j].a]>>
+  IF ~w.on THEN <<(<<>>), [on |-> TRUE, text |-> s, first |-> j, last |-> j, sz |-> WordKey(j)]>>
   ELSE IF AllSpace(s) THEN <<WriteWord(w) \o HocrText(s), [w EXCEPT !.on = FALSE]>>
-  ELSE IF w.sz # T[j].a
+  ELSE IF w.sz # WordKey(j)
        THEN IF "HocrWordLost" \in dev
             \* write_word() leaves within_chars False; the glyph joins the stale text, which the next glyph overwrites
-            THEN <<WriteWord(w), [on |-> FALSE, text |-> w.text \o s, first |-> j, last |-> j, sz |-> T[j].a]>>
-            ELSE <<WriteWord(w), [on |-> TRUE, text |-> s, first |-> j, last |-> j, sz |-> T[j].a]>>
+            THEN <<WriteWord(w), [on |-> FALSE, text |-> w.text \o s, first |-> j, last |-> j, sz |-> WordKey(j)]>>
+            ELSE <<WriteWord(w), [on |-> TRUE, text |-> s, first |-> j, last |-> j, sz |-> WordKey(j)]>>
   ELSE <<(<<>>), [w EXCEPT !.text = w.text \o s, !.last = j]>>
 \* a word still open when a line or page ends: the intended design writes it
 FlushPending == IF w.on /\ "HocrPending" \notin dev THEN WriteWord(w) ELSE <<>>
